@@ -67,6 +67,8 @@ def mk(v):
         return [mk(x) for x in v["items"]]
     if k == "callable":
         return _hook
+    if k == "builtin":
+        return {"len": len, "float": float}[v["w"]]
     if k == "class":
         return CLASSES[v["c"]]
     if k == "inst":
